@@ -1,0 +1,52 @@
+//go:build verif
+
+package luagc
+
+// Hooks for the /verif framework (C18).  Add-only, compiled only with the
+// "verif" build tag.  Read-only accessors plus a deterministic stand-in for
+// the Go collector's callback.
+
+// VerifGoFinalizer invokes the pool's Go finaliser callback on v, as the Go
+// runtime would when v has become unreachable.  The caller keeps v alive, so
+// the real collector never fires for it.
+func (p *ClonePool) VerifGoFinalizer(v Value) { p.goFinalizer(v) }
+
+// VerifSetFinalizerHook replaces the package's setFinalizer (normally
+// runtime.SetFinalizer) by f and returns a function restoring the old one.
+func VerifSetFinalizerHook(f func(obj interface{}, finalizer interface{})) (restore func()) {
+	old := setFinalizer
+	setFinalizer = f
+	return func() { setFinalizer = old }
+}
+
+// VerifEntry is a read-only copy of a cloneEntry.
+type VerifEntry struct {
+	Key       Key
+	MarkOrder int
+	Finalized bool
+	Released  bool
+}
+
+func verifEntry(c cloneEntry) VerifEntry {
+	return VerifEntry{Key: c.value.Key(), MarkOrder: c.markOrder, Finalized: c.hasFlag(wrFinalized), Released: c.hasFlag(wrReleased)}
+}
+
+// VerifState returns a copy of the pool's internal state: whether the
+// register is nil, lastMarkOrder, the register entries (map order), and the
+// two pending lists in append order.
+func (p *ClonePool) VerifState() (closed bool, last int, reg, pendF, pendR []VerifEntry) {
+	p.mx.Lock()
+	defer p.mx.Unlock()
+	closed = p.cloneRegister == nil
+	last = p.lastMarkOrder
+	for _, c := range p.cloneRegister {
+		reg = append(reg, verifEntry(c))
+	}
+	for _, c := range p.pendingFinalize {
+		pendF = append(pendF, verifEntry(c))
+	}
+	for _, c := range p.pendingRelease {
+		pendR = append(pendR, verifEntry(c))
+	}
+	return
+}
